@@ -245,6 +245,8 @@ def run(ctx):
     C02round.run(ctx, repo)
     C02round.data_rule(ctx, repo)
     C02round.ignored_gap_rule(ctx, repo)
+    from sa.rules import C01pipe
+    C01pipe.run(ctx, repo)
     from sa.rules import memo
     memo.run_for(ctx, repo, 'C01')
     return report.finish(ctx, EXPLANATION)
